@@ -2,8 +2,8 @@
    Proved: the index mechanisms of the round trip, each for ALL cable ranges (Z), widths and wire lists:
    slice text, declaration text, concatenation (run-length grouping), low-end alignment, and their
    composition for one written instance port (slice-or-concatenation decision included).
-   Not proved: the document-level statement C04_full below (module headers/aliases, assign regeneration,
-   options) - the document-level writer is not modelled (the reader is: Fmt/VElab.v); that level is covered by the
+   and the assign clause (every accepted assign is written and read back as the same assignment instance).
+   Not proved: the document-level statement C04_full below (module headers/aliases, options) - the document-level writer is not modelled (the reader is: Fmt/VElab.v); that level is covered by the
    oracle of harness/verilog_check.py on the implementation only. Character-level tokenisation is not modelled. *)
 From Coq Require Import List ZArith Bool Permutation.
 From SV Require Import Base.Base Fmt.VBits Fmt.VExpr Fmt.VDoc Fmt.VElab
@@ -82,19 +82,35 @@ Example C04_port_emit_inverse_witness :
   Permutation [2;0;1]%nat (seq 0 3).
 Proof. split; [vm_compute; reflexivity|]. split; [vm_compute; reflexivity|]. cbn. apply perm_trans with [0;2;1]%nat; [apply perm_swap|constructor; apply perm_swap]. Qed.
 
-(* assign statements. The clause "the text written is always accepted / same assigns": for the faithful model of
-   connect_wires_for_assign + _write_assignment it is REFUTED for every multi-bit assign (open finding
-   V04-assign-compose-assert; witness replayed by corpus/verilog/c04-multi-bit-assign.json), and holds for
-   single-bit assigns. *)
-Theorem C04_assign_multibit_unwritable : forall e c h l c2 h2 l2,
-  atom_typed e (APart c h l) -> atom_typed e (APart c2 h2 l2) -> h - l = h2 - l2 -> l < h ->
-  exists pins, read_assign e (APart c h l) (APart c2 h2 l2) = Some pins /\ write_assign e pins = None.
-Proof. exact assign_multibit_unwritable_lemma. Qed.
-Print Assumptions C04_assign_multibit_unwritable.
+(* assign statements (repaired: former finding V04-assign-compose-assert, the reader wired a multi-bit assign most
+   significant bit first and _write_assignment then refused the netlist). For the model of connect_wires_for_assign +
+   _write_assignment: EVERY assign of two typed atoms (identifier, bit- or part-select; any cables, bases, widths,
+   equal or not) is written as one slice per side, and the reader makes of that text the same assignment instance:
+   the same (o wire, i wire) on every pin. *)
+Theorem C04_assign_roundtrip : forall e lhs rhs, atom_typed e lhs -> atom_typed e rhs ->
+  exists pins co bo ci bi,
+    read_assign e lhs rhs = Some pins /\
+    write_assign e pins = Some ((co, bo), (ci, bi)) /\
+    read_assign e (brk_atom co bo) (brk_atom ci bi) = Some pins.
+Proof. exact assign_roundtrip_lemma. Qed.
+Print Assumptions C04_assign_roundtrip.
 
-Theorem C04_assign_clause_refuted : ~ assign_writable.
-Proof. exact assign_writable_refuted_lemma. Qed.
-Print Assumptions C04_assign_clause_refuted.
+(* the clause "the text written for what the reader built is always accepted" (was C04_assign_clause_refuted) *)
+Theorem C04_assign_clause_holds : assign_writable.
+Proof. exact assign_writable_holds_lemma. Qed.
+Print Assumptions C04_assign_clause_holds.
+
+(* regression witness of the former refutation: assign a[1:0] = b[1:0] (corpus/verilog/c04-multi-bit-assign.json);
+   and slices of different bases in cables that do not start at 0: assign a[5:3] = b[-1:-3] *)
+Example C04_assign_multibit_witness :
+  let e : env := fun c => if Nat.eqb c 0 then (2, 4%nat) else (-3, 5%nat) in
+  read_assign wit_env (APart 0%nat 1 0) (APart 1%nat 1 0) = Some [((0%nat, 0), (1%nat, 0)); ((0%nat, 1), (1%nat, 1))] /\
+  write_assign wit_env [((0%nat, 0), (1%nat, 0)); ((0%nat, 1), (1%nat, 1))] = Some ((0%nat, BRange 1 0), (1%nat, BRange 1 0)) /\
+  read_assign e (APart 0%nat 5 3) (APart 1%nat (-1) (-3)) =
+    Some [((0%nat, 3), (1%nat, -3)); ((0%nat, 4), (1%nat, -2)); ((0%nat, 5), (1%nat, -1))] /\
+  write_assign e [((0%nat, 3), (1%nat, -3)); ((0%nat, 4), (1%nat, -2)); ((0%nat, 5), (1%nat, -1))] =
+    Some ((0%nat, BRange 5 3), (1%nat, BRange (-1) (-3))).
+Proof. vm_compute. repeat split; reflexivity. Qed.
 
 Theorem C04_assign_single_bit : forall e c i c2 i2,
   atom_typed e (ABit c i) -> atom_typed e (ABit c2 i2) ->
